@@ -41,9 +41,10 @@ TECHNIQUE = ("Coq proof (totality incl. fuel, soundness, completeness of the eng
              "parse and the PARSER model's token loop along option prefixes and subcommand names; end-to-end acceptance of every "
              "offered option/subcommand candidate by parse_top on whole lines - round 4: lines with positional values, multi-valued "
              "options, -o=v, per-level subcommand_precedence_over_arg and args_conflicts_with_subcommands, with the engine's pos_index "
-             "and valid_arg_found proved equal to the parser's counter and flag; level correspondence) + extracted-model/implementation "
+             "and valid_arg_found proved equal to the parser's counter and flag; round 5: value terminators of options and positionals; "
+             "level correspondence) + extracted-model/implementation "
              "correspondence")
-LEVEL_TEXT = ("Machine-checked theorems (Coq 8.16, 75 pinned, all closed under the global context) about a function-by-function "
+LEVEL_TEXT = ("Machine-checked theorems (Coq 8.16, 84 pinned, all closed under the global context) about a function-by-function "
               "model of clap_complete::engine::complete: no panic site is reachable and no fuel runs out for any command, argv "
               "and index (build_full's fuel proved sufficient); in state ValueDone every option/subcommand candidate extends the "
               "word and names an option/alias/subcommand of the level reached by the shadow parse; under assert_app's uniqueness "
@@ -79,22 +80,57 @@ LEVEL_TEXT = ("Machine-checked theorems (Coq 8.16, 75 pinned, all closed under t
               "(C18_hide_flag_definitional, C18_hidden_rule_definitional).  ORDER: the final stable sort by (position of the tag, display "
               "order) is modelled (complete_model_ord); C18_sort_final_spec: its result is a permutation of its input, sorted by the key, "
               "stable; C18_order_is_permutation: the ordered result is a permutation of the unordered model's.  "
+              "Round 5 (Complete/EngineTerm.v; the model follows the repair of finding C18-value-terminator, docs/pending/"
+              "engine_value_terminator_fix.diff: parse_opt_value / parse_positional take the word and do what the parser's check_terminator "
+              "does): C18_terminator_step_agreement - on the value terminator of the pending option (any count) both machines are back between "
+              "arguments with nothing pushed; on the terminator of the positional at the counter (between arguments or while it is being "
+              "filled) both move the index / counter on; the classes item18 (`--opt v1..vj ;`, `-o v1..vj ;`, j below the maximum) and pitems18 "
+              "(`;` alone, `v1..vk ;`) now contain terminators, so C18_state_agreement_item18, C18_state_agreement_positionals, C18_shadow_pline and "
+              "the END-TO-END theorem C18_candidate_accepted_pline cover lines with terminators (non-vacuity: EngineTerm.TermLine); "
+              "C18_pending_option_dash_agreement: while an option is pending with ANY number of values a word lexed as an exact long key or a "
+              "non-empty short cluster is handled by both machines exactly as between arguments (level without hyphen-accepting arguments: "
+              "hyphen_free); item18 therefore also contains partially filled occurrences `--opt v1..vj <item>` (the minimum is judged by the parser's "
+              "flush: TooFewValues-class, never an unknown error; non-vacuity EngineTerm.PartialLine).  "
+              "A bounded multi-valued positional that has all the values the engine's num_args admits (body18's b18_multi_max; body18 now carries the "
+              "engine's index beside the parser's counter): the engine is in ValueDone at index+1 where the parser stays in PSPos at the counter "
+              "(C18_state_agreement_positionals, restated); a subcommand name behind it is read by both iff the level sets "
+              "subcommand_precedence_over_arg - such lines are in pline (non-vacuity EngineTerm.MaxLine).  "
+              "Lines with the escape `--` (Complete/EngineEscape.v; beyond the letter of the property): C18_escaped_agreement (engine: is_escaped set, "
+              "index moved by the escaped values exactly as the parser's counter, state Pos; parser: trailing-mode loop, LDone or an error of a flush), "
+              "C18_escaped_accepted (pline line, `--`, words that all find a positional: never UnknownArgument/InvalidSubcommand), "
+              "C18_candidate_accepted_escaped (EVERY candidate offered behind `line -- v1..vk` is accepted; directly behind `--` a positional at the "
+              "counter is needed: C18_escape_no_positional_refuted).  "
+              "Finding C18-require-equals (docs/pending/engine_require_equals_fix.diff, model follows): behind `--opt` of an option that requires `=` the "
+              "engine no longer waits for a value; C18_require_equals_before_after (before: `p --opt sub --<TAB>` offered an option of `p` although the "
+              "parser is at `sub`); item18 contains `--opt` (require_equals, minimum 0) as a complete occurrence.  "
+              "C18_terminator_before_after: the unrepaired loop stood at the wrong level behind `p --opt a ; sub` / `p a ; sub` and offered an "
+              "option the parser rejects as unknown, the repaired one stands where the parser does.  "
               "The model is tied to clap_complete by running the extracted model "
               "and the real crate on the same generated cases on every check; an independent python oracle splices each candidate "
               "into the line and has the real parser accept it.")
 LEVEL_NOTE = ("Trusted: Coq kernel, extraction, OCaml driver, Rust harness, generators; Command::build blocks and assert_app "
               "shared with the parser model.  Differential/oracle only: the sort data themselves (clap's display-order counter, headings, rendered argument names as tags: "
               "stream `order` compares lists with the real crate); agreement of the shadow parse's "
-              "state with the parser's OUTSIDE the classes item18/pitems18/body18 (multi-valued options with fewer than max values "
-              "followed by another argument, terminators, hyphen values, require_equals, low-index multiples / allow_missing_positional, "
-              "a bounded multi-valued positional after its maximum, flag subcommands, inferred names, the generated help subtree); "
-              "acceptance on whole lines by the REAL parser; custom/path completers not modelled.  A value terminator is unknown to the "
-              "engine (C18_terminator_refuted: `p --opt a ; sub <TAB>` offers an option of the wrong level, replayed on the crate; "
-              "reported, oracle bails out on terminators).  Class boundaries kept as theorems with witnesses replayed on the real crate: require_equals "
-              "(C18_require_equals_refuted: `p --opt <TAB>` offers a value the parser rejects with UnknownArgument); an option "
+              "state with the parser's OUTSIDE the classes item18/pitems18/body18 (partially filled multi-valued options on a level with "
+              "hyphen-accepting arguments, a terminator that starts with `-` or follows the maximum of the range, hyphen values, require_equals, low-index multiples / allow_missing_positional, "
+              "a line that goes on at the same level behind a full bounded multi-valued positional (the two counters differ by one), flag subcommands, inferred names, the generated help subtree, escaped values that name a subcommand, last(true) positionals behind `--`); "
+              "acceptance on whole lines by the REAL parser; custom/path completers not modelled.  Finding C18-value-terminator (the engine did "
+              "not know Arg::value_terminator; C18_terminator_before_after, corpus accept.value-terminator.cases) is repaired by "
+              "docs/pending/engine_value_terminator_fix.diff, which model and proofs follow: so is finding C18-require-equals by "
+              "docs/pending/engine_require_equals_fix.diff (stacked on it); until both are committed in /repo the check fails "
+              "against /repo (oracle + correspondence) and passes with VERIF_REPO=<clone with the patches>; the oracle reads terminators and "
+              "partially filled multi-valued options (option_values).  Class boundaries kept as theorems with witnesses replayed on the real crate: an option "
               "without long name but with a visible alias is neither recognised by the shadow parse (C18_same_long_refuted) nor "
               "offered (C18_complete_options_alias_refuted = known finding C18-alias-without-primary); --alias=<TAB> offers no values "
-              "(C18_long_alias_value_refuted).")
+              "(C18_long_alias_value_refuted).  Known finding C18-low-index-multiples (round 5, not repaired): the engine has no counterpart of the "
+              "parser's low-index-multiples correction of the positional counter - behind `p a b sub` (files=[a], dst=b for the parser) it still "
+              "fills <files> at `p` and offers an option the parser rejects as unknown (C18_low_index_multiples_refuted; corpus witness; the "
+              "premise pos_plain of the positional theorems is necessary).  Known findings C18-infer-subcommands / C18-infer-long-args (round 5, not "
+              "repaired): the engine knows neither setting - `p su --<TAB>` (su = sub for the parser) offers an option of `p`, `p --opti sub --<TAB>` "
+              "(--opti = --option taking `sub`) offers an option of `sub`, both rejected as unknown (C18_inferred_names_refuted; the oracle reads "
+              "inference instead of giving up on such trees).  Known finding C18-flag-subcommands (an observation since round 1): flag-subcommands are "
+              "neither offered nor followed - `p --sync --<TAB>` offers an option of `p` (C18_flag_subcommands_refuted; the oracle follows `--long-flag` "
+              "and a single `-s`).")
 
 U64_MAX = 2**64 - 1
 BAD_KINDS = {"UnknownArgument", "InvalidSubcommand", "PANIC"}
@@ -140,7 +176,7 @@ def nontrivial(case, impl):
 # ------------------------------------------------------------------------------------------ tree dump decoding
 def node_of(sx):
     """(c xNAME h|v (f ..) (va ..) (aa ..) (a ...)* (c ...)*)"""
-    n = {"name": unhex(sx[1]), "hidden": sx[2] == "h", "flags": set(), "va": [], "aa": [], "args": [], "subs": []}
+    n = {"name": unhex(sx[1]), "hidden": sx[2] == "h", "flags": set(), "va": [], "aa": [], "args": [], "subs": [], "lf": [], "sf": []}
     for it in sx[3:]:
         h = it[0]
         if h == "f":
@@ -149,6 +185,10 @@ def node_of(sx):
             n["va"] = [unhex(x) for x in it[1:]]
         elif h == "aa":
             n["aa"] = [unhex(x) for x in it[1:]]
+        elif h == "lf":
+            n["lf"] = [unhex(x) for x in it[1:]]
+        elif h == "sf":
+            n["sf"] = [chr(int(x)) for x in it[1:]]
         elif h == "a":
             a = {"id": unhex(it[1]), "hidden": it[2] == "h"}
             for f in it[3:]:
@@ -163,6 +203,8 @@ def node_of(sx):
                     a["min"], a["max"] = int(f[1]), int(f[2])
                 elif k == "i":
                     a["index"] = int(f[1])
+                elif k == "t":
+                    a["term"] = unhex(f[1])
             n["args"].append(a)
         elif h == "c":
             n["subs"].append(node_of(it))
@@ -216,7 +258,72 @@ UNSAFE_CMD_FLAGS = {"allow_external_subcommands", "allow_missing_positional", "m
 # subcommand is that subcommand even while a multiple positional is being filled; the scan follows the level it is at.
 
 
-def scan_prefix(root, words):
+def find_sub_infer(node, name, infer):
+    """Command::infer_subcommands (the parser's possible_subcommand): a word that is a prefix of the name or of an alias of
+    exactly ONE subcommand names it; otherwise the exact name / alias.  -> (subcommand or None, was it found by inference)"""
+    if infer:
+        hits = [s for s in node["subs"] if s["name"].startswith(name) or any(x.startswith(name) for x in s["aa"])]
+        if len(hits) == 1:
+            exact = find_sub(node, name)
+            return hits[0], exact is not hits[0]
+    return find_sub(node, name), False
+
+
+def find_long_infer(node, name, infer):
+    """Command::infer_long_args (parse_long_arg): the exact key first; otherwise the ONE argument whose long name or one of
+    whose aliases the word is a prefix of.  -> (argument or None, was it found by inference)"""
+    a = find_long(node, name)
+    if a is not None or not infer:
+        return a, False
+    hits = [x for x in node["args"] if "positional" not in x["flags"] and any(l.startswith(name) for l in long_names(x))]
+    if len(hits) == 1:
+        return hits[0], True
+    return None, False
+
+
+def plain_terminator(a):
+    """the argument's value terminator is a plain word (non-empty, no leading dash): only then does the scan read it"""
+    t = a.get("term")
+    return t is not None and t != b"" and not t.startswith(b"-")
+
+
+def option_values(level, a, words, j):
+    """The words from index j on behind an option `a` that was given without an attached value: by clap's conventions
+    the following plain words are its values until the maximum of `num_args` is reached, the option's
+    `value_terminator` is read (it is dropped) or - the minimum being reached - a word that looks like an option
+    follows.  Returns the index of the first word that is no longer part of the occurrence, None when that cannot be
+    decided by convention or the cursor is still inside the occurrence (a value is pending)."""
+    if "term" in a["flags"] and not plain_terminator(a):
+        return None
+    if a["flags"] & {"hyphen", "negnum"}:
+        return None
+    if (a["min"], a["max"]) != (1, 1) and "delim" in a["flags"]:
+        return None
+    count = 0
+    n = len(words)
+    while True:
+        if j >= n:
+            return None                      # the word under the cursor may still be a value of the option
+        w = words[j]
+        if w == b"" or w == b"-" or w == b"--":
+            return None
+        if w.startswith(b"-"):
+            # a new option: the occurrence is over if it has its minimum (otherwise the line is an error of the prefix)
+            if count < a["min"]:
+                return None
+            return j
+        if "term" in a["flags"] and w == a["term"]:
+            return j + 1
+        if "subcommand_precedence_over_arg" in level["flags"] and \
+                any(x["name"].startswith(w) or any(y.startswith(w) for y in x["aa"]) for x in level["subs"]):
+            return None
+        count += 1
+        j += 1
+        if count >= a["max"]:
+            return j
+
+
+def scan_prefix(root, words, settings=frozenset(), note=None):
     """Conventional scan of the words before the cursor, written from clap's documented command-line
     conventions (not from the engine): returns the level reached when a NEW ARGUMENT MAY START there,
     None when that cannot be decided soundly (pending value, `--`, anything unconventional)."""
@@ -227,6 +334,11 @@ def scan_prefix(root, words):
     in_pos = False      # a multiple positional is being filled (the parser's ParseState::Pos)
     weak = False        # ... has happened: only soundness is judged from then on
     seen_arg = False    # an option / flag / positional value of the CURRENT level was read (reset on descent)
+    lowidx = False      # a word was read as a value of a multi-valued positional that is not the last positional of its level
+    infer_sub = "infer_subcommands" in settings      # global settings (propagated to every subcommand)
+    infer_long = "infer_long_args" in settings
+    if note is None:
+        note = {}
     while i < n:
         if level["flags"] & UNSAFE_CMD_FLAGS:
             return None
@@ -243,56 +355,95 @@ def scan_prefix(root, words):
         if w.startswith(b"--"):
             body = w[2:]
             name, eq, _val = body.partition(b"=")
-            a = find_long(level, name)
-            if a is None or a["id"] in (b"help", b"version") or a["flags"] & {"term", "reqeq", "positional"}:
+            a, by_inference = find_long_infer(level, name, infer_long)
+            if a is None and not eq and not infer_sub and not infer_long:
+                # a flag-subcommand (`Command::long_flag`): `--name` selects the subcommand that declares it (arguments first)
+                fs = [x for x in level["subs"] if name in x["lf"]]
+                if len(fs) == 1:
+                    note["flagsub"] = True
+                    in_pos = False
+                    seen_arg = False
+                    level = fs[0]
+                    pc = 0
+                    i += 1
+                    continue
+            if a is None or a["id"] in (b"help", b"version") or a["flags"] & {"positional"}:
                 return None
+            if "reqeq" in a["flags"] and a["max"] > 0:
+                # `require_equals`: the value must be attached with `=`; without it the option is complete when no value
+                # is required (otherwise the line is an error: NoEquals) - it never takes the next word
+                if (eq and (a["min"], a["max"]) not in ((1, 1), (0, 1))) or (not eq and a["min"] != 0) or "term" in a["flags"]:
+                    return None
+                if by_inference:
+                    note["inferred"] = "infer-long-args"
+                i += 1
+                continue
+            if by_inference:
+                note["inferred"] = "infer-long-args"
             if a["max"] == 0:
                 if eq:
                     return None
                 i += 1
                 continue
             if eq:
-                if (a["min"], a["max"]) != (1, 1):
+                if (a["min"], a["max"]) != (1, 1) or "term" in a["flags"]:
                     return None
                 i += 1
                 continue
-            if (a["min"], a["max"]) != (1, 1) or i + 1 >= n or words[i + 1].startswith(b"-") or words[i + 1] == b"":
+            i = option_values(level, a, words, i + 1)
+            if i is None:
                 return None
-            i += 2
             continue
         if w.startswith(b"-"):
             chars = ws[1:]
             if chars[0].isdigit():
                 return None
+            if len(chars) == 1 and find_short(level, chars[0]) is None:
+                # a flag-subcommand (`Command::short_flag`) given alone: `-S` selects the subcommand (inside a cluster the rest
+                # of the cluster belongs to the subcommand: not read here)
+                fs = [x for x in level["subs"] if chars[0] in x["sf"]]
+                if len(fs) == 1:
+                    note["flagsub"] = True
+                    in_pos = False
+                    seen_arg = False
+                    level = fs[0]
+                    pc = 0
+                    i += 1
+                    continue
             k = 0
             consumed_next = False
             while k < len(chars):
                 a = find_short(level, chars[k])
-                if a is None or a["id"] in (b"help", b"version") or a["flags"] & {"term", "reqeq", "positional"}:
+                if a is None or a["id"] in (b"help", b"version") or a["flags"] & {"reqeq", "positional"}:
                     return None
                 if a["max"] == 0:
                     k += 1
                     continue
-                if (a["min"], a["max"]) != (1, 1):
-                    return None
                 rest = chars[k + 1:]
                 if rest:
+                    if (a["min"], a["max"]) != (1, 1) or "term" in a["flags"]:
+                        return None
                     if rest.startswith("=") and len(rest) == 1:
                         return None
                     break
-                if i + 1 >= n or words[i + 1].startswith(b"-") or words[i + 1] == b"":
-                    return None
                 consumed_next = True
                 break
-            i += 2 if consumed_next else 1
+            if consumed_next:
+                i = option_values(level, a, words, i + 1)
+                if i is None:
+                    return None
+            else:
+                i += 1
             continue
-        s = find_sub(level, w)
+        s, sub_by_inference = find_sub_infer(level, w, infer_sub)
         if s is not None and seen_arg and "args_conflicts_with_subcommands" in level["flags"]:
             # behind an argument of such a level the parser does not look for subcommands: the word is a plain word
             # (a positional value, or an error of the prefix line - then CLEAN_PREFIX drops the case); the level reached
             # is still this one (finding C18-args-conflict: the engine used to descend)
             s = None
         if s is not None and (not in_pos or "subcommand_precedence_over_arg" in level["flags"]):
+            if sub_by_inference:
+                note["inferred"] = "infer-subcommands"
             in_pos = False
             seen_arg = False
             level = s
@@ -300,19 +451,38 @@ def scan_prefix(root, words):
             i += 1
             continue
         pos = [a for a in level["args"] if "positional" in a["flags"] and a.get("index") == pc + 1]
-        if len(pos) == 1 and (pos[0]["max"] >= 2**62 or "append" in pos[0]["flags"]) and pos[0]["min"] <= 1 \
-                and not pos[0]["flags"] & {"last", "tva", "term", "hyphen", "negnum", "delim"}:
-            # unbounded / appending positional: every further plain word is one of its values, also one
-            # that names a subcommand (Parser::get_matches_with looks for subcommands only outside Pos)
+        if len(pos) == 1 and "term" in pos[0]["flags"]:
+            # `value_terminator`: the word equal to it ends the values of the positional at the counter (also when it has
+            # none yet) and is itself dropped - the next positional is up and a new argument may start
+            if not plain_terminator(pos[0]) or pos[0]["flags"] & {"last", "tva", "hyphen", "negnum", "delim"}:
+                return None
+            if w == pos[0]["term"]:
+                in_pos = False
+                seen_arg = True
+                pc += 1
+                i += 1
+                continue
+        if len(pos) == 1 and (pos[0]["max"] >= 2 or "append" in pos[0]["flags"]) and pos[0]["min"] <= 1 \
+                and not pos[0]["flags"] & {"last", "tva", "hyphen", "negnum", "delim"}:
+            # multi-valued / appending positional: every further plain word is one of its values, also one
+            # that names a subcommand (Parser::get_matches_with looks for subcommands only outside Pos); the parser
+            # keeps collecting beyond the maximum of a bounded range (then the prefix line is TooManyValues at
+            # validation and CLEAN_PREFIX drops the case)
             in_pos = True
             weak = True
             seen_arg = True
+            if "term" not in pos[0]["flags"] \
+                    and any("positional" in a["flags"] and a.get("index", 0) > pc + 1 for a in level["args"]):
+                # clap's "low index multiples": which positional takes a word depends on the NEXT word (Parser::get_matches_with
+                # peeks; not for a positional with a value terminator); the scan reads the word as a value of the multiple
+                # positional - known finding C18-low-index-multiples
+                lowidx = True
             i += 1
             continue
         # a positional that takes several values or appends is "multiple" for the parser: while it is being
         # filled subcommand names are values, so the level cannot be decided by convention
         if len(pos) != 1 or (pos[0]["min"], pos[0]["max"]) != (1, 1) \
-                or pos[0]["flags"] & {"last", "tva", "term", "append"}:
+                or pos[0]["flags"] & {"last", "tva", "append"}:
             return None
         pc += 1
         seen_arg = True
@@ -323,7 +493,7 @@ def scan_prefix(root, words):
     # component): the parser answers ArgumentConflict, takes the name as the value of a positional, or answers UnknownArgument
     # when the positional at the counter is last(true); no subcommand candidate may be offered there and none is required
     nosubs = bool(seen_arg and "args_conflicts_with_subcommands" in level["flags"])
-    return level, weak, nosubs
+    return level, weak, nosubs, lowidx
 
 
 def decode_case(case):
@@ -334,6 +504,19 @@ def decode_case(case):
 
 
 def accept_oracle(case, impl):
+    """the oracle proper is accept_oracle_core; a complaint about a line on which the scan had to use clap's name INFERENCE
+    (infer_subcommands / infer_long_args - the engine knows neither) belongs to a recorded finding and is tagged"""
+    note = {}
+    r = accept_oracle_core(case, impl, note)
+    if isinstance(r, str) and not r.startswith("the completion engine panicked"):
+        if note.get("flagsub"):
+            r += " [flag-subcommand]"
+        elif note.get("inferred"):
+            r += " [%s]" % note["inferred"]
+    return r
+
+
+def accept_oracle_core(case, impl, note):
     head, extra = split_result(impl)
     if head.startswith("PANIC") or head.startswith("ABORT"):
         return "the completion engine panicked: %s" % head[:300]
@@ -348,7 +531,7 @@ def accept_oracle(case, impl):
     if index >= len(argv):
         return "candidates returned for an index outside the argument vector"
     settings = spec_settings(sx[1], set())
-    if settings & {"infer_long_args", "infer_subcommands", "ignore_errors"}:
+    if settings & {"ignore_errors"}:
         return None
     if info["prefix"][0] not in CLEAN_PREFIX:
         return None
@@ -356,10 +539,10 @@ def accept_oracle(case, impl):
     start = 0 if "no_binary_name" in root["flags"] else 1
     if index < start:
         return "candidates returned for the binary name"
-    sc = scan_prefix(root, argv[start:index])
+    sc = scan_prefix(root, argv[start:index], settings, note)
     if sc is None:
         return None
-    level, weak, nosubs = sc
+    level, weak, nosubs, lowidx = sc
     word = argv[index]
     acc = {}
     ids = {}
@@ -417,6 +600,9 @@ def accept_oracle(case, impl):
                     (find_short(level, ch) or {"max": 1})["max"] == 0 for ch in word.decode("utf-8", "replace")[1:])
                 if not cluster or typed_ok:
                     what = "is rejected by the real parser on the completed line (%s)" % acc.get(v)
+                    if lowidx:
+                        # recorded finding: the engine does not model the parser's low-index-multiples counter correction
+                        what += " [low-index-multiples]"
             if what:
                 return "candidate %r %s" % (v, what)
     # ---- hidden only when nothing visible matches
@@ -846,6 +1032,75 @@ def gen_argsconflict(mode):
     return out
 
 
+def gen_terminators(mode):
+    """value terminators and partially filled multi-valued arguments (finding C18-value-terminator): an option with
+    `num_args(lo..=hi)` and a `value_terminator`, a multi-valued positional with one, a subcommand behind them; lines
+    with 0..hi values, with and without the terminator, followed by a flag, a subcommand name or nothing - every
+    count around the bounds of the range x terminator present / absent x continuation x word under the cursor"""
+    def arg(id_, *items):
+        return "(arg %s%s)" % (h(id_), "".join(" " + x for x in items))
+    out = []
+    sub = "(sub (cmd %s %s))" % (h(b"sub"), arg(b"so", "(long %s)" % h(b"so"), "(short %d)" % ord("s"), "(action settrue)"))
+    words = (b"", b"-", b"--", b"--s", b"--p", b"s", b";")
+    for lo, hi in ((1, 3), (0, 2), (2, 2), (1, "inf")):
+        for prec in (False, True):
+            # the option
+            root = "(cmd %s%s %s %s %s)" % (
+                h(b"p"), " (set subcommand_precedence_over_arg)" if prec else "",
+                arg(b"pf", "(long %s)" % h(b"pf"), "(short %d)" % ord("f"), "(action settrue)"),
+                arg(b"opt", "(long %s)" % h(b"opt"), "(short %d)" % ord("o"), "(action set)", "(num %s %s)" % (lo, hi), "(term %s)" % h(b";")),
+                sub)
+            top = 4 if hi == "inf" else hi + 1
+            for k in range(0, top + 1):
+                vals = [b"v%d" % j for j in range(k)]
+                for head in ([b"--opt"], [b"-o"], [b"-fo"]):
+                    for tail in ([], [b";"], [b";", b"sub"], [b"--pf"], [b";", b"--pf"], [b"sub"], [b";", b";"]):
+                        ln = head + vals + tail
+                        for w in words:
+                            out.append(case_line(mode, root, [b"prog"] + ln + [w], len(ln) + 1))
+        # the positional (multi-valued positionals must come last: no low-index multiples here)
+        for with_src in (False, True):
+            args = [arg(b"pf", "(long %s)" % h(b"pf"), "(short %d)" % ord("f"), "(action settrue)")]
+            idx = 1
+            if with_src:
+                args.append(arg(b"src", "(index 1)", "(action set)", "(term %s)" % h(b";")))
+                idx = 2
+            args.append(arg(b"files", "(index %d)" % idx, "(action set)", "(num %s %s)" % (max(lo, 1), hi), "(term %s)" % h(b";")))
+            root = "(cmd %s %s %s)" % (h(b"p"), " ".join(args), sub)
+            top = 4 if hi == "inf" else hi + 1
+            for k in range(0, top + 1):
+                vals = [b"v%d" % j for j in range(k)]
+                for tail in ([], [b";"], [b";", b"sub"], [b"--pf"], [b";", b"--pf"], [b"sub"], [b";", b";"], [b";", b"x", b";", b"sub"]):
+                    ln = vals + tail
+                    for w in words:
+                        out.append(case_line(mode, root, [b"prog"] + ln + [w], len(ln) + 1))
+    return out
+
+
+def gen_reqeq(mode):
+    """require_equals (finding C18-require-equals): an option that requires `=` with 0..=1 / exactly 1 / 0..=2 values, given with and
+    without `=`, long and short, followed by a value-looking word, a subcommand name, a flag or nothing x the word under the cursor"""
+    def arg(id_, *items):
+        return "(arg %s%s)" % (h(id_), "".join(" " + x for x in items))
+    out = []
+    sub = "(sub (cmd %s %s))" % (h(b"sub"), arg(b"so", "(long %s)" % h(b"so"), "(short %d)" % ord("s"), "(action settrue)"))
+    words = (b"", b"-", b"--", b"--s", b"--p", b"s", b"v", b"--opt=")
+    for lo, hi in ((0, 1), (1, 1), (0, 2)):
+        root = "(cmd %s %s %s %s %s)" % (
+            h(b"p"),
+            arg(b"pf", "(long %s)" % h(b"pf"), "(short %d)" % ord("f"), "(action settrue)"),
+            arg(b"opt", "(long %s)" % h(b"opt"), "(short %d)" % ord("o"), "(action set)", "(num %d %d)" % (lo, hi), "(flags reqeq)",
+                "(x-pv (%s v) (%s v))" % (h(b"va"), h(b"vb"))),
+            arg(b"file", "(action set)"),
+            sub)
+        for head in ([b"--opt"], [b"-o"], [b"-fo"], [b"--opt=va"], [b"-o=va"], [b"--opt="], [b"-ova"]):
+            for tail in ([], [b"va"], [b"sub"], [b"--pf"], [b"x", b"sub"], [b"sub", b"--so"]):
+                ln = head + tail
+                for w in words:
+                    out.append(case_line(mode, root, [b"prog"] + ln + [w], len(ln) + 1))
+    return out
+
+
 def gen_precedence(mode):
     out = []
     lines = [[b"run", b"a", b"build"], [b"run", b"build"], [b"a", b"run"], [b"a", b"run", b"b", b"build"],
@@ -953,11 +1208,11 @@ def coverage(cases, tag):
 def streams(tier, rng):
     quick = tier == "quick"
     dyn_cases = gen_random(rng, 120 if quick else 1500, 3, "dyn")
-    st_cases = gen_states(rng, tier, "dyn", 2 if quick else 3, 400 if quick else 6000) + gen_precedence("dyn") + gen_argsconflict("dyn")
+    st_cases = gen_states(rng, tier, "dyn", 2 if quick else 3, 400 if quick else 6000) + gen_precedence("dyn") + gen_argsconflict("dyn") + gen_terminators("dyn") + gen_reqeq("dyn")
     acc_cases = gen_random(rng, 60 if quick else 500, 2, "dynaccept", conventional=False) \
         + gen_random(rng, 80 if quick else 700, 2, "dynaccept", conventional=True) \
         + gen_states(rng, tier, "dynaccept", 1 if quick else 2, 250 if quick else 3000) \
-        + gen_pending("dynaccept") + gen_precedence("dynaccept") + gen_argsconflict("dynaccept")
+        + gen_pending("dynaccept") + gen_precedence("dynaccept") + gen_argsconflict("dynaccept") + gen_terminators("dynaccept") + gen_reqeq("dynaccept")
     ord_cases = gen_order(rng, 60 if quick else 600, 3)
     return [
         Stream("dyn", dyn_cases, oracle=total_oracle, area="dynamic", project=project, nontrivial=nontrivial,
@@ -975,4 +1230,12 @@ def streams(tier, rng):
 def classify_known(stream, case, impl, failure):
     if isinstance(failure, str) and failure.endswith("[alias-without-primary]"):
         return "C18-alias-without-primary"
+    if isinstance(failure, str) and failure.endswith("[low-index-multiples]"):
+        return "C18-low-index-multiples"
+    if isinstance(failure, str) and failure.endswith("[infer-subcommands]"):
+        return "C18-infer-subcommands"
+    if isinstance(failure, str) and failure.endswith("[infer-long-args]"):
+        return "C18-infer-long-args"
+    if isinstance(failure, str) and failure.endswith("[flag-subcommand]"):
+        return "C18-flag-subcommands"
     return None
